@@ -23,16 +23,14 @@ Theorem C19_safe_funcs_harmless : sb_safe_funcs_harmless sb_cur_facts = true.
 Proof. exact (eq_refl true <: sb_safe_funcs_harmless sb_cur_facts = true). Qed.
 Print Assumptions C19_safe_funcs_harmless.
 
-(* source-derived cross-check of that classification: the C++ body of at least 80 of the functions registered
-   side-effect-free is located, and none of the located bodies calls a mutator (Set/Add/Remove/Clear/Freeze/SetField/
-   ModifyAttribute/Register/...) on an object it did not create or touches files, processes or registries; the same
-   scan flags every container/object mutator the model knows *)
+(* sanity of that analysis on the current tree: every definition of every function registered side-effect-free is located,
+   and the same analysis flags all 15 container/object mutators the model knows (Array#add/set/remove/clear/freeze, ...) *)
 Theorem C19_safe_bodies_clean :
-  sb_safe_bodies_clean sb_cur_facts sb_cur_body_scan 80 = true /\
-  sb_scan_sees_mutators sb_cur_body_scan sb_container_mutators = true.
+  sb_safe_bodies_located sb_cur_facts sb_cur_purity_raw = true /\
+  sb_analysis_sees_mutators sb_cur_purity_raw sb_container_mutators = true.
 Proof.
-  exact (conj (eq_refl true <: sb_safe_bodies_clean sb_cur_facts sb_cur_body_scan 80 = true)
-              (eq_refl true <: sb_scan_sees_mutators sb_cur_body_scan sb_container_mutators = true)).
+  exact (conj (eq_refl true <: sb_safe_bodies_located sb_cur_facts sb_cur_purity_raw = true)
+              (eq_refl true <: sb_analysis_sees_mutators sb_cur_purity_raw sb_container_mutators = true)).
 Qed.
 Print Assumptions C19_safe_bodies_clean.
 
@@ -134,7 +132,7 @@ Print Assumptions C19_safe_natives_pure.
    from its receiver and arguments unchanged - as well as the rest of the shared heap, the external component, the local
    heap and the hidden-read log; for every store, receiver, argument list and choice stream *)
 Theorem C19_pure_native : forall fuel fr nm self args s,
-  sb_native_pure sb_cur_facts nm = true -> sb_native_higher sb_cur_facts nm = false ->
+  sb_native_pure sb_cur_facts nm = true -> sb_native_higher sb_cur_facts nm = false -> (nm =? sb_n_ref_get)%N = false ->
   let r := sb_run sb_cur_facts (S fuel) (SbRqInvoke fr (SbNative nm) self args) s in
   ((exists v, fst r = SbROk v) \/ fst r = SbRErr SbEOther) /\
   (forall i, In i (sb_reach s (self :: args)) -> nth i (sbs_shared (snd r)) [] = nth i (sbs_shared s) []) /\
@@ -142,6 +140,25 @@ Theorem C19_pure_native : forall fuel fr nm self args s,
   sbs_reads (snd r) = sbs_reads s.
 Proof. exact (sb_pure_native sb_cur_facts). Qed.
 Print Assumptions C19_pure_native.
+
+(* HIDDEN READS THROUGH NATIVES.  Every accessor fetching a field of a reflected object that a side-effect-free native can
+   reach (callees resolved by name in lib/base, depth 3) is GetFieldByName(.., sandboxed = true, ..), which tests
+   no_user_view; Reference#get (= Reference::Get, modelled as the same checked read as `*ref`) is refused on a reference to
+   a no_user_view field such as ApiUser.password / ApiListener.ticket_salt and fetches nothing *)
+Theorem C19_native_read_paths :
+  sb_native_reads_checked sb_cur_native_reflect = true /\
+  forall fuel fr ty o idx args s, sb_is_hidden sb_cur_facts ty idx = true ->
+    let r := sb_run sb_cur_facts (S fuel) (SbRqInvoke fr (SbNative sb_n_ref_get) (SbVRef ty o idx) args) s in
+    fst r = SbRErr SbESandbox /\ sbs_reads (snd r) = sbs_reads s /\ sb_protected (snd r) = sb_protected s.
+Proof.
+  exact (conj (eq_refl true <: sb_native_reads_checked sb_cur_native_reflect = true)
+          (fun fuel fr ty o idx args s =>
+             sb_reference_get_refused sb_cur_facts fuel fr ty o idx args s
+               (eq_refl SbPure <: sb_class_of sb_cur_facts sb_n_ref_get = SbPure)
+               (eq_refl true <: sbf_ref_get_checked sb_cur_facts = true)
+               (eq_refl true <: sbf_getfield_checked sb_cur_facts = true))).
+Qed.
+Print Assumptions C19_native_read_paths.
 
 (* ... and every native registered side-effect-free, the callback-taking ones included, leaves every cell reachable from
    receiver and arguments and the whole protected component unchanged when invoked below a sandboxed stack top *)
